@@ -1,6 +1,7 @@
 package sim
 
 import (
+	"bytes"
 	"encoding/json"
 	"errors"
 	"fmt"
@@ -22,6 +23,7 @@ import (
 	"github.com/ucan-wg/go-ucan/pkg/args"
 	"github.com/ucan-wg/go-ucan/pkg/command"
 	"github.com/ucan-wg/go-ucan/pkg/container"
+	"github.com/ucan-wg/go-ucan/pkg/meta"
 	"github.com/ucan-wg/go-ucan/token"
 	"github.com/ucan-wg/go-ucan/token/delegation"
 	"github.com/ucan-wg/go-ucan/token/invocation"
@@ -145,6 +147,9 @@ type schedWorld struct {
 
 	forged [][]byte // per sealed token: same signature, one payload byte changed (same length)
 	carAll []byte   // all sealed tokens in one CAR
+
+	encMu     sync.Mutex
+	encStored [][]byte // stored ciphertexts of every EncryptOwn operation (nonce-freshness oracle)
 }
 
 // forgeSameLength rewrites one byte inside the nonce of a sealed token: canonical DAG-CBOR of
@@ -546,6 +551,20 @@ func schedOp(w *schedWorld, name string) func() string {
 		s, e1 := m.GetEncryptedString(arg, w.encKey)
 		b, e2 := m.GetEncryptedBytes(arg, w.encKey)
 		return func() string { return fmt.Sprint(s, errStr(e1), b, errStr(e2)) }
+	case "EncryptOwn":
+		// every caller encrypts into a Meta of its own (nothing is shared at the API level) and
+		// reads its values back; the stored values are collected for the nonce-freshness oracle
+		m := meta.NewMeta()
+		e1 := m.AddEncrypted("s", "a secret string for "+arg, w.encKey)
+		e2 := m.AddEncrypted("b", []byte("secret bytes for "+arg), w.encKey)
+		s, e3 := m.GetEncryptedString("s", w.encKey)
+		b, e4 := m.GetEncryptedBytes("b", w.encKey)
+		c1, _ := m.GetBytes("s")
+		c2, _ := m.GetBytes("b")
+		w.encMu.Lock()
+		w.encStored = append(w.encStored, append([]byte{}, c1...), append([]byte{}, c2...))
+		w.encMu.Unlock()
+		return func() string { return fmt.Sprint(errStr(e1), errStr(e2), s, errStr(e3), string(b), errStr(e4)) }
 	case "MetaEquals":
 		m := metaOf(tk)
 		eq := m.Equals(m.WriteableClone().ReadOnly())
@@ -677,6 +696,20 @@ func schedOp(w *schedWorld, name string) func() string {
 			}
 			return "accepted-as-signed"
 		}
+	case "StreamSealUnseal":
+		// the streaming forms side by side with other callers' (unrelated tokens, own sinks and
+		// sources): the CID reported is the hash of the bytes written / read, and the same as alone
+		idx := len(w.sealed) - 1
+		if !isInv {
+			fmt.Sscanf(target, "dlg%d", &idx)
+			idx %= len(w.dlgs)
+		}
+		var buf bytes.Buffer
+		c1, e1 := tk.ToSealedWriter(&buf, pk)
+		_, c2, e2 := token.FromSealedReader(bytes.NewReader(w.sealed[idx]))
+		okW := e1 == nil && bytes.Equal(c1.Bytes(), harnessCID(buf.Bytes()))
+		okR := e2 == nil && bytes.Equal(c2.Bytes(), harnessCID(w.sealed[idx]))
+		return func() string { return fmt.Sprintf("%s %v %s %s %v %s", errStr(e1), okW, c1, errStr(e2), okR, c2) }
 	case "DecodeContainer":
 		rd, err := container.FromCar(w.carAll)
 		n := len(rd)
@@ -933,6 +966,8 @@ func execSched(t *testing.T, pl Plan, seed uint64, o *Outcome) {
 	o.Eval("C20")
 	nRaces := 0
 	c06race := false
+	c19race := false
+	c08race := false
 	for _, rep := range strings.Split(newLog, "==================") {
 		if !strings.Contains(rep, "WARNING: DATA RACE") || !strings.Contains(rep, "github.com/ucan-wg/go-ucan/") {
 			continue
@@ -941,12 +976,37 @@ func execSched(t *testing.T, pl Plan, seed uint64, o *Outcome) {
 		if nRaces == 1 {
 			o.Violate("C20", "data-race", "race detector report with a go-ucan frame: "+raceSummary(rep), map[string]string{"frames": raceSummary(rep)})
 		}
+		if !c08race && (strings.Contains(rep, "envelope.cidFromHash") || strings.Contains(rep, "envelope.(*CIDWriter)") || strings.Contains(rep, "envelope.(*CIDReader)") || strings.Contains(rep, "envelope.CIDFromBytes")) {
+			// content addresses computed side by side conflict on shared state: which bytes a
+			// reported CID is the hash of is then no longer defined
+			c08race = true
+			o.Violate("C08", "cid-data-race", "content addresses computed side by side race with each other: "+raceSummary(rep), map[string]string{"frames": raceSummary(rep)})
+		}
+		if !c19race && (strings.Contains(rep, "go-ucan/pkg/meta/internal/crypto.") || strings.Contains(rep, "meta.(*Meta).AddEncrypted") || strings.Contains(rep, "GetEncrypted")) {
+			// encryptions / decryptions running side by side conflict on shared state (a nonce
+			// source, a scratch buffer): freshness and integrity are then no longer defined
+			c19race = true
+			o.Violate("C19", "encryption-data-race", "encrypted-metadata calls running side by side race with each other: "+raceSummary(rep), map[string]string{"frames": raceSummary(rep)})
+		}
 		if !c06race && strings.Contains(rep, "go-ucan/token/internal/envelope.") && (strings.Contains(rep, "envelope.FromIPLD") || strings.Contains(rep, "envelope.fromIPLD") || strings.Contains(rep, "envelope.FromDag") || strings.Contains(rep, ".FromSealed")) {
 			// two decoders running side by side conflict on state of the verifying path: which
 			// bytes a signature was checked over is then no longer defined
 			c06race = true
 			o.Violate("C06", "decoder-data-race", "decoders running side by side race inside the verifying path: "+raceSummary(rep), map[string]string{"frames": raceSummary(rep)})
 		}
+	}
+	// nonce freshness across callers: no two stored ciphertexts begin with the same 24 bytes
+	seenNonce := map[string]bool{}
+	for _, c := range shared.encStored {
+		if len(c) < 24 {
+			continue
+		}
+		o.Eval("C19")
+		if seenNonce[string(c[:24])] {
+			o.Violate("C19", "nonce-reused", "two encryptions made side by side by different callers carry the same nonce", map[string]string{"where": "concurrent callers"})
+			break
+		}
+		seenNonce[string(c[:24])] = true
 	}
 	o.Logf("sched passA ops=%d goroutines=%d races=%d", len(order), k, nRaces)
 
@@ -1149,10 +1209,21 @@ func genSched(r *Rand, g GenCfg) Plan {
 		"StoreGet", "StoreIter", "ContainerWrite"}
 	dlgOps := []string{"ToSealed", "ToSealedWriter", "ToSealedWriterAfterFailure", "SealScribbleSeal", "SealScribbleSeal", "ToDagJson", "Encode", "Accessors", "Derived", "Derived", "IsValid", "MetaIter", "MetaString", "MetaGet", "MetaEquals", "MetaClone", "MetaCloneMutate", "PolicyString", "PolicyMatch", "PolicyMatchAlt", "PolicyMatchAlt", "StoreGet"}
 	decodeOps := []string{"DecodeSealed", "DecodeForged", "DecodeTyped", "DecodeForgedTyped", "DecodeDagCbor", "DecodeForgedDagCbor", "DecodeContainer"}
-	if g.Focus == "C06" {
+	if g.Focus == "C08" {
+		// sealing and unsealing only, streaming and buffered, by callers side by side
+		invOps = []string{"StreamSealUnseal", "StreamSealUnseal", "ToSealed", "ToSealedWriter", "DecodeSealed", "ContainerWrite"}
+		dlgOps = []string{"StreamSealUnseal", "StreamSealUnseal", "ToSealed", "ToSealedWriter", "DecodeSealed"}
+	} else if g.Focus == "C19" {
+		// encrypted metadata only: callers encrypting into Metas of their own, readers of the
+		// shared token's encrypted entries
+		invOps = []string{"EncryptOwn", "EncryptOwn", "MetaGetEncrypted", "MetaClone"}
+		dlgOps = []string{"EncryptOwn"}
+	} else if g.Focus == "C06" {
 		// decoders only, honest and forged bytes of the same token side by side
 		invOps, dlgOps = decodeOps, decodeOps
 	} else {
+		invOps = append(invOps, "EncryptOwn", "StreamSealUnseal")
+		dlgOps = append(dlgOps, "StreamSealUnseal")
 		invOps = append(invOps, "DecodeSealed", "DecodeForged", "DecodeContainer")
 		dlgOps = append(dlgOps, "DecodeSealed", "DecodeForged", "DecodeTyped")
 	}
@@ -1181,6 +1252,8 @@ func genSched(r *Rand, g GenCfg) Plan {
 				name += ":" + Pick(r, keyPool)
 			case "MetaGetEncrypted":
 				name += ":" + Pick(r, []string{"sec", "sec2", "sec2"})
+			case "EncryptOwn":
+				name += ":" + fmt.Sprintf("g%d", g)
 			}
 			p.Ops[g] = append(p.Ops[g], name)
 		}
@@ -1215,7 +1288,7 @@ func genSched(r *Rand, g GenCfg) Plan {
 func init() {
 	register(&ScenarioDef{
 		Name:  "sched",
-		Props: []string{"C20", "C06"},
+		Props: []string{"C20", "C06", "C19", "C08"},
 		Gen:   genSched,
 		Exec:  execSched,
 		Fresh: true,
